@@ -654,6 +654,10 @@ class HttpParser(abc.ABC, Generic[_MsgT]):
         :param bool val: new state.
         """
         self._upgraded = val
+        if not val:
+            # A declined upgrade must not take effect later, once the body of
+            # the request that asked for it has been read.
+            self._pending_upgrade = False
 
 
 class HttpRequestParser(HttpParser[RawRequestMessage]):
